@@ -2425,14 +2425,17 @@ C18_DOC = {"s": ["abc", "Hello World", "", "10", "-7", "x%20y%2Fz", "true", "FAL
                  "arn:aws:s3", "a", "bb", "{\"k\": [1, 2, {\"z\": null}]}", "[1, \"a\"]", "9223372036854775808", "é", "1e3"],
            "n": [0, 1, -5, 42, 9223372036854775807], "f": [1.5, 10.0, -2.5, 1e21, 5e-324], "b": [True, False], "z": None,
            "m": {"a": "x", "b": "y"}, "mixed": ["a", 1, True, None, "b", [1], {"q": 1}], "one": "abcdef", "e": [],
-           "json": "{\"a\": [1, 2.5, \"s\", true, null], \"b\": {\"c\": \"d\"}}", "ints": ["1", "2", "30"], "strs": ["a", "b", "c"]}
+           "json": "{\"a\": [1, 2.5, \"s\", true, null], \"b\": {\"c\": \"d\"}}", "ints": ["1", "2", "30"], "strs": ["a", "b", "c"],
+           # lists whose members are empty or end / start with a delimiter (joins must keep them)
+           "tails": ["a", "b", ""], "delims": ["x", "y,", ",z"], "empties": ["", ""], "dashes": ["-", "a-", " | ", "--"], "single": [""]}
 
 
 def c18_cases(ctx, rng):
     fs = ["count", "to_upper", "to_lower", "url_decode", "substring", "join", "json_parse", "parse_int", "parse_float",
           "parse_string", "parse_boolean", "parse_epoch", "regex_replace"]
     queries = ["s[*]", "n[*]", "f[*]", "b[*]", "mixed[*]", "one", "strs[*]", "ints[*]", "json", "zz", "s[*].zz", "e[*]", "m.*",
-               "mixed", "z", "s[0]", "s[3]", "s[4]", "s[5]", "s[6]", "s[7]", "s[8]", "s[9]", "s[15]", "s[16]", "s[17]", "some s[*].zz"]
+               "mixed", "z", "s[0]", "s[3]", "s[4]", "s[5]", "s[6]", "s[7]", "s[8]", "s[9]", "s[15]", "s[16]", "s[17]", "some s[*].zz",
+               "tails[*]", "delims[*]", "empties[*]", "dashes[*]", "single[*]"]
     cases = []
     per = 6 if ctx.thorough() else 2
     for f in fs:
@@ -2985,7 +2988,7 @@ register("C14", ["Guard.Properties.C14"], run_C14)
 
 def c19_template(g, clean=True):
     types = ["AWS::S3::Bucket", "AWS::EC2::Volume", "Custom::Thing"][: g.ch([1, 2, 3])]
-    strs = ["a", "b", "us-west-2b", "x y", "10", "true", "é"] + ([] if clean else [" lead", "trail "])
+    strs = ["a", "b", "us-west-2b", "x y", "10", "true", "é", "C:\\temp\\logs", "^\\d{1,3}$", "tab\there", "a\\"] + ([] if clean else [" lead", "trail "])
     pnames = {t: g.r.sample(["Size", "Name", "Enc", "Zone", "Tags", "Cfg"], g.ch([1, 2, 3])) for t in types}
     res = {}
     for i in range(g.ch([1, 2, 3, 4, 5])):
@@ -3066,6 +3069,23 @@ def c19_list_mixed(t):
     return False
 
 
+def c19_nested_escape(t):
+    """does a property hold a LIST or STRUCT that contains a string JSON has to escape (backslash, quote, control)?"""
+    def needs(v):
+        if isinstance(v, str):
+            return any(c in '\\"' or ord(c) < 32 for c in v)
+        if isinstance(v, list):
+            return any(needs(x) for x in v)
+        if isinstance(v, dict):
+            return any(needs(x) or needs(k) for k, x in v.items())
+        return False
+    for r in t.get("Resources", {}).values():
+        for v in (r.get("Properties") or {}).values() if isinstance(r, dict) and isinstance(r.get("Properties"), dict) else []:
+            if isinstance(v, (list, dict)) and needs(v):
+                return True
+    return False
+
+
 def run_C19(ctx):
     res = Result("generated CloudFormation-shaped templates (1..5 resources over 1..3 types; scalar string/int/bool and nested "
                  "list/map property values; repeated and distinct values; resources of a type share their property names) -> "
@@ -3127,7 +3147,7 @@ def run_C19(ctx):
         obs = vlib.obs_of_impl(c)
         if obs["kind"] != "ok" or any(s != "PASS" for _, s in obs["rules"]):
             res.judge_failures.append(dict(info, what="validating the source template against its own generated rules: %s" % (obs.get("rules") or obs),
-                                           **{"class": kclass or ("c19-list-mixed" if c19_list_mixed(t) else "c19-not-pass")}))
+                                           **{"class": kclass or ("c19-list-mixed" if c19_list_mixed(t) else ("c19-nested-escape" if c19_nested_escape(t) else "c19-not-pass"))}))
             continue
         # correspondence: emitted clauses == model rule map
         em = emitted_rule_map(ast["ok"])
